@@ -139,8 +139,9 @@ class C15(Check):
         real_gcs = utils.get_cell_size
 
         def recording_get_cell_size():
-            seen[0] = T
-            return real_gcs()
+            r = real_gcs()
+            seen[0] = T  # (only a call that completed has seen the terminal: an interrupted one leaves the cache as it was)
+            return r
 
         ti.get_cell_size = recording_get_cell_size
         name_is_kitty = eng.bool("terminal_is_kitty")
@@ -156,10 +157,17 @@ class C15(Check):
         utils.fcntl = type("fcntl", (), {"ioctl": staticmethod(ioctl)})
         utils.array = lambda typ, init: list(init)
 
+        interrupted = [False]
+        allow_interrupt = [False]  # only a get_cell_size() call of the history itself is interrupted
+
         def query_terminal(request, more, timeout=None):
             if not utils._queries_enabled:
                 return None
             queries_sent[0] += 1
+            if b">q" not in request and allow_interrupt[0] and not interrupted[0] and bool(eng.bool(f"size_query_interrupted{queries_sent[0]}")):
+                # Ctrl-C while waiting for the reply to a size query (at most once per history)
+                interrupted[0] = True
+                raise KeyboardInterrupt
             if b">q" in request:  # XTVERSION
                 return (b"\x1bP>|kitty(0.30.0)\x1b\\" if bool(name_is_kitty) else b"\x1bP>|foot(1.16)\x1b\\") + b"\x1b["
             return b""  # no answer to the XTWINOPS fallback
@@ -189,7 +197,13 @@ class C15(Check):
         ratio_mode = ["float", 0.5]  # ('float', v) | ('fixed', snapshot) | ('dynamic',)
 
         def check_cell_size(tag):
-            got = recording_get_cell_size()
+            allow_interrupt[0] = True
+            try:
+                got = recording_get_cell_size()
+            except KeyboardInterrupt:
+                return None  # the interrupted call itself yields nothing; later calls must still be fresh
+            finally:
+                allow_interrupt[0] = False
             known, cw, ch = fresh_cell_size()
             det = sym_and(known, cw != 0, ch != 0)
             if got is None:
@@ -245,7 +259,10 @@ class C15(Check):
             elif name == "get_cell_size":
                 check_cell_size(tag)
             elif name == "get_cell_ratio":
-                got = ti.get_cell_ratio()
+                try:
+                    got = ti.get_cell_ratio()
+                except KeyboardInterrupt:
+                    continue
                 exp = ratio_mode[1] if ratio_mode[0] != "dynamic" else fresh_ratio()
                 eng.claim(f"{tag}: get_cell_ratio() = the set value / the FIXED snapshot / a fresh DYNAMIC computation", core.rterm(got) == core.rterm(exp))
             elif name == "get_name":
